@@ -205,7 +205,14 @@ def run(tier, replay=None):
         return report.finish()
     rnd = common.rng("c11")
     cases = gen_cases(rnd, tier)
-    lits = [case_lit(i, s, o) for _k, i, s, o in cases]
+    wedged, kept, lits = [], [], []
+    for c in cases:
+        lit = common.guarded(lambda c=c: case_lit(c[1], c[2], c[3]), repr(c[1:]), wedged)
+        if lit is not None:
+            kept.append(c)
+            lits.append(lit)
+    cases = kept
+    common.report_wedged(report, wedged, proof)
     bad, stats = evaluate(lits, "c11")
     spec_bad = [(i, m, sc) for i, m, sc in bad if sc >= 30]
     model_bad = [(i, m, sc) for i, m, sc in bad if m >= 10 and sc < 30]
